@@ -135,3 +135,43 @@ Lemma w_history_window :
   rest_ifm 86400 (restart 86400 (read_back (crashed_store Bolt w_history 4))) (tag "s", 1) = None /\
   rest_ifm 86400 (restart 86400 (read_back (crashed_store Bolt w_history 5))) (tag "s", 1) <> None.
 Proof. vm_compute. repeat split. discriminate. Qed.
+
+(* ---------- Clean Start: nothing of the discarded session is restored ---------- *)
+
+Lemma no_entry_sub c f (m : amap sub_key (subscription * N)) :
+  existsb (fun e : sub_key * (subscription * N) => beq_bytes (fst (fst e)) c) m = false ->
+  aget sub_key_eqb (c, f) m = None.
+Proof.
+  induction m as [|[[c' f'] v] r IH]; cbn [existsb aget fst]; intro H; [reflexivity|].
+  apply orb_false_iff in H. destruct H as [H1 H2].
+  unfold sub_key_eqb at 1. cbn [fst snd]. rewrite beq_bytes_sym, H1. cbn [andb]. exact (IH H2).
+Qed.
+
+Lemma no_entry_ifm c pid (m : amap ifm_key (pkt * N)) :
+  existsb (fun e : ifm_key * (pkt * N) => beq_bytes (fst (fst e)) c) m = false ->
+  aget ifm_key_eqb (c, pid) m = None.
+Proof.
+  induction m as [|[[c' p'] v] r IH]; cbn [existsb aget fst]; intro H; [reflexivity|].
+  apply orb_false_iff in H. destruct H as [H1 H2].
+  unfold ifm_key_eqb at 1. cbn [fst snd]. rewrite beq_bytes_sym, H1. cbn [andb]. exact (IH H2).
+Qed.
+
+(* when the writes have discarded everything recorded for a client id (which the broker must have
+   done by the time it establishes a session with Clean Start 1: [clean_start_leftover] checks it on
+   every recorded history), a restart after any further writes that do not concern the id restores no
+   subscription and no in-flight message for it *)
+Theorem clean_start_nothing_restored : forall maxcap aws b c,
+  key_limit_exceeded aws = false -> KF_C20_sub_key_collision aws = false ->
+  KF_C20_irregular_expiry maxcap aws = false -> pids_ok aws = true ->
+  session_leftover c (arun aws) = false ->
+  forall f pid,
+    rest_sub (restart maxcap (read_back (run_awrites b aws))) (c, f) = None /\
+    rest_ifm maxcap (restart maxcap (read_back (run_awrites b aws))) (c, pid) = None.
+Proof.
+  intros maxcap aws b c K C R P L f pid.
+  destruct (restart_restores maxcap aws b K C R P) as [_ [S [I _]]].
+  unfold session_leftover in L. apply orb_false_iff in L. destruct L as [L1 L2].
+  rewrite S, I. unfold spec_sub, spec_ifm. cbn [fst].
+  rewrite (no_entry_sub c f _ L1), (no_entry_ifm c pid _ L2). cbn [option_map].
+  destruct (has_session (arun aws) c); split; reflexivity.
+Qed.
